@@ -35,7 +35,12 @@ pub const BLOCK_KINDS: &[&str] = &[
     "bind_groups",
     "wave",
     "call_ring",
+    "const_edges",
 ];
+
+/// Block kinds that are not validated at start-up: they probe the edges of constant evaluation and
+/// may legitimately be rejected, but must never take the compiler down
+const UNVALIDATED: &[&str] = &["const_edges"];
 
 fn pick<'a>(rng: &mut Rng, xs: &[&'a str]) -> &'a str {
     xs[rng.below(xs.len() as u64) as usize]
@@ -327,6 +332,51 @@ pub fn block(kind: &str, rng: &mut Rng, u: usize) -> (String, String) {
             }
             body.push_str(&format!("ring{u}_{}(3u);\n", rng.below(n as u64)));
         }
+        "const_edges" => {
+            // constant expressions over boundary values in the positions that demand a constant
+            let ints = ["0", "1", "2147483647", "(-2147483647 - 1)", "31", "32", "40", "-1", "5"];
+            let uints = ["0u", "1u", "4294967295u", "31u", "32u", "2147483648u", "7u"];
+            let iops = ["+", "-", "*", "/", "%", "<<", ">>", "&", "|", "^"];
+            let mut expr = |rng: &mut Rng, unsigned: bool, depth: u32| -> String {
+                fn go(rng: &mut Rng, vals: &[&str], ops: &[&str], depth: u32) -> String {
+                    if depth == 0 || rng.chance(1, 3) {
+                        let v = vals[rng.below(vals.len() as u64) as usize];
+                        return match rng.below(6) {
+                            0 => format!("(~{v})"),
+                            1 => format!("(-{v})"),
+                            _ => v.to_string(),
+                        };
+                    }
+                    let op = ops[rng.below(ops.len() as u64) as usize];
+                    format!("({} {op} {})", go(rng, vals, ops, depth - 1), go(rng, vals, ops, depth - 1))
+                }
+                if unsigned {
+                    go(rng, &uints, &iops, depth)
+                } else {
+                    go(rng, &ints, &iops, depth)
+                }
+            };
+            for k in 0..rng.range(2, 5) {
+                let unsigned = rng.chance(1, 2);
+                let ty = if unsigned { "uint" } else { "int" };
+                let e = expr(rng, unsigned, 2);
+                match rng.below(5) {
+                    0 => decl.push_str(&format!("static const {ty} ce{u}_{k} = {e};\n")),
+                    1 => decl.push_str(&format!("static int ce_arr{u}_{k}[({e}) & 7u | 1u];\n").replace("& 7u | 1u", if unsigned { "& 7u | 1u" } else { "& 7 | 1" })),
+                    2 => decl.push_str(&format!("enum CE{u}_{k} {{ CEV{u}_{k}_A = {e}, CEV{u}_{k}_B }};\n")),
+                    3 => {
+                        decl.push_str(&format!(
+                            "int ce_sw{u}_{k}(int x) {{ switch (x) {{ case {e}: return 1; default: return 0; }} }}\n"
+                        ));
+                        body.push_str(&format!("sink += ce_sw{u}_{k}(1);\n"));
+                    }
+                    _ => {
+                        decl.push_str(&format!("static const {ty} ce{u}_{k} = {e};\n"));
+                        body.push_str(&format!("sink += (int)ce{u}_{k};\n"));
+                    }
+                }
+            }
+        }
         "wave" => {
             decl.push_str(&format!(
                 "uint wave{u}() {{ return WaveGetLaneCount() + WaveGetLaneIndex(); }}\n"
@@ -399,6 +449,10 @@ pub fn valid_kinds() -> &'static (Vec<&'static str>, Vec<String>) {
         let mut ok = Vec::new();
         let mut notes = Vec::new();
         for k in BLOCK_KINDS {
+            if UNVALIDATED.contains(k) {
+                ok.push(*k);
+                continue;
+            }
             let mut good = true;
             for trial in 0..3u64 {
                 let mut rng = Rng::new(0xB10C).sub_n(k, trial);
